@@ -581,8 +581,43 @@ pub fn c05(ctx: &mut Ctx, acc: &mut Acc) -> i32 {
     0
 }
 
+/// Inputs of 2^32 bytes and more (zero pages that are never touched, apart from a header at the front): sizes and
+/// offsets that only misbehave when 32 bits are not enough.  Native lanes only; reported without the input's bytes.
+fn huge_inputs(ctx: &mut Ctx, acc: &mut Acc) {
+    if ctx.shard != 0 || ctx.only_fresh() || !matches!(ctx.lane.as_str(), "dbg" | "rel") || cfg!(miri) {
+        return;
+    }
+    let n = (1usize << 32) + 4096;
+    // (a) a record header with a negative chunk size (vi(-3) = 5): must be rejected however much input follows
+    for (id, head) in [("(u8, u8)", vec![1u8, 5, 0, 42, 43]), ("TolInnerV1", vec![1u8, 5, 7, 2, b'a', 0, 0, 0, 9])] {
+        let Some(s) = ctx.reg.get(id) else { continue };
+        let Some(mut big) = sbase::zeroed(n) else {
+            acc.count("skipped_for_lack_of_address_space");
+            continue;
+        };
+        big[..head.len()].copy_from_slice(&head);
+        acc.case(Some(sig(&[id.as_bytes(), &head, b"huge"])));
+        let (real, _) = dec_hostile(s, &big);
+        let reference = ref_decode(&s.ty(), &big);
+        match (&real, &reference) {
+            (Call::Err(_), Err(_)) => acc.count("huge_inputs_with_a_negative_chunk_size_rejected"),
+            (other, r) => acc.violation(
+                format!("C06|{id}|negative_chunk_size_in_a_huge_input|{}", if other.is_ok() { "accepted".to_string() } else { other.class() }),
+                J::obj()
+                    .with("check", J::s("C06"))
+                    .with("mode", J::s("content"))
+                    .with("subject", J::s(id))
+                    .with("input", J::s(format!("{} followed by zero bytes up to a length of 2^32 + 4096", refmodel::hex(&head))))
+                    .with("real", J::s(other.class()))
+                    .with("reference", J::s(format!("{:?}", r.as_ref().map(|(v, _)| v.render(80)).map_err(|e| e.msg.clone())))),
+            ),
+        }
+    }
+}
+
 pub fn c06(ctx: &mut Ctx, acc: &mut Acc) -> i32 {
     pinned_cases(ctx, acc, false, true);
+    huge_inputs(ctx, acc);
     let mut ids: Vec<String> = ctx.my_subjects(|_| true).iter().map(|s| s.id().to_string()).collect();
     if ctx.shard == 0 && !ctx.only_fresh() {
         ids.extend(ctx.reg.hostile_only.iter().map(|s| s.id().to_string()));
